@@ -72,3 +72,7 @@ claim('C14', 'Hypothesis-generated integer polygons / small-integer Bezier outli
       'About 5k (quick) / 120k (thorough) cases: area() against exact rational areas (pi rx ry within the chord bound for arcs), its sign and its behaviour under reversal, translation, scaling and affine maps; path_encloses_pt against exact crossing parity for probes proven (in rationals) to be in general position; is_contained_by against exact crossing tests and even-odd containment of the inner start.',
       'Trusts: vp/ref/exactgeom.py; curved outlines use an 800-point-per-segment flattening with distance, grazing and joint filters; arc areas with chord_length 1e-2 x size.',
       'DESIGN.md 2/C14')
+claim('C17', 'Hypothesis-generated SVG document trees (all seven element kinds, nested groups, structured transform lists) printed to text; differential against a reference flattener that works on the generated structure',
+      'About 4k (quick) / 60k (thorough) documents (~6 leaves each): every leaf returned by Document.paths, Document.paths_from_group, svg2paths and SaxDocument is matched by id (document order for SaxDocument) and compared segment-wise through the reference matrix product (outermost ancestor first) and the SVG 1.1 shape definitions; circles/ellipses as point sets on the mapped ellipse.',
+      'Trusts: vp/ref/svgdoc_ref.py (transforms per SVG 1.1 7.6, shapes per section 9); transform arguments separated by single commas/spaces; condition number of chains <= 1e3.',
+      'DESIGN.md 2/C17')
